@@ -19,3 +19,19 @@ claim("C11",
   "Capacity bound by induction over solver-checked steps: pkg/cache clamps every int size to >= 1024; NewMapCache gives every shard a maximum m with 1 <= m and 64*m <= size for every size >= 64; one shard.set from any state with len <= max (all key values, every map iteration order) keeps len <= max, holds the new key and introduces no foreign key; get/set/del/flush/len are exact sequentially for colliding and non-colliding keys.",
   "Shard states bounded to 0..4 entries, max 1..4; the concurrent part of the property (race freedom, linearizable Get under concurrent Store/Flush/gc) is checked by the C11_conc harness when present in spec.json, otherwise not yet claimed.",
   "DESIGN.md §6 C11")
+claim("C05",
+  "saveRespToCache/getRespFromCache, the TTL helpers, dns.Msg.Copy and pkg/cache Get/Store are executed on an arbitrary answer (any rcode, TC, record TTLs 0..2^32-1 in all three sections, with/without OPT, lazy_cache_ttl off/any positive) and an arbitrary elapsed time 0..2^31 s: admission follows the property's rules and lifetimes (30 s / 5 s / min(300, minTTL) / minTTL), a hit is served fresh iff the smallest TTL has not run out, every non-OPT TTL is lowered by the whole seconds elapsed and never below 1, stale answers are served only with lazy caching on and with TTL 5, expired entries are invisible.",
+  "At most max_rr records per section (quick 1, thorough 2); elapsed time applied by shifting the entry's instants (equivalent to advancing the clock, replayable natively) on a 512-ns grid at least 1 ms away from whole seconds; the 'at most one background refresh per key' clause (singleflight + goroutine) is not yet covered by this harness.",
+  "DESIGN.md §6 C05")
+claim("C10",
+  "For every answer within the bound the stored copy, the original and successive hits are pairwise disjoint in heap reachability (no shared RR struct, slice backing array, option object or Question slice), the stored copy holds no OPT, and after adversarial in-place mutation of an earlier hit and of the original (TTLs, names, record data, slot overwrite, in-place append, EDNS append) a later hit is field-for-field what was stored.",
+  "At most max_rr records per section over {A, AAAA, CNAME, TXT, SOA, OPT}; Go's append growth modelled without size-class rounding; concurrency follows from disjointness plus C11; ID rewrite of hits asserted with cache.Exec when that harness is present.",
+  "DESIGN.md §6 C10")
+claim("C03",
+  "EntryHandler.Handle with query_context and the real context package is executed on an arbitrary query struct (ID, all header bits, 0-2 questions with symbolic names/type/class, stray answer/authority records, none/one/two additional records, OPT with any size/flags/0-2 options) against a plugin chain ending in error / no response / a response with arbitrary header, rcode and records: malformed <=> no reply and chain not run; otherwise exactly one reply with the query's ID and question, QR and RA set, SERVFAIL / REFUSED / the plugins' answer; over UDP Truncate is called once with max(512, advertised) after the OPT append; getValidUDPSize = max(512, size) for all sizes.",
+  "Message level only (Pack/Unpack/Truncate of miekg/dns not encoded; a wrong Truncate argument is found symbolically but cannot be replayed natively on small answers and is reported as inconclusive, exit 3); the plugin chain is a harness double obeying the property's premise; servers (UDP/TCP/DoH write sites) and real plugin compositions are outside this harness.",
+  "DESIGN.md §6 C03")
+claim("C15",
+  "Through Handle + query_context: the query shown to the plugin chain carries exactly one fresh OPT (not the client's record, none of its options); the reply carries exactly one OPT iff the client sent one, it is the server's own record, DO mirrored, no client/upstream options, last in the additional section; the upstream's OPT is popped from every response set. TTL helpers leave the OPT flags word untouched and never duplicate/drop it; stored cache items contain no OPT.",
+  "No explicitly forwarding plugin (ecs_handler, forward_edns0opt) in the harness chain; message level (wire codec not encoded); client OPT <= 2 options, upstream OPT 1-2 options.",
+  "DESIGN.md §6 C15")
